@@ -229,6 +229,7 @@ func LeanStringList(xs []string) string {
 type Out struct {
 	dir   string
 	files map[string]*strings.Builder
+	bare  bool // no file header (buffers of one extractor, merged into the real Out afterwards)
 }
 
 func (o *Out) File(name string) *strings.Builder {
@@ -236,6 +237,10 @@ func (o *Out) File(name string) *strings.Builder {
 		return b
 	}
 	b := &strings.Builder{}
+	if o.bare {
+		o.files[name] = b
+		return b
+	}
 	fmt.Fprintf(b, "/- GENERATED by `vharness facts` from /repo's working tree on every run. Do not edit. -/\nnamespace Casket.Generated\n\n")
 	o.files[name] = b
 	return b
@@ -279,28 +284,38 @@ func register(ids string, fn func(repo string, o *Out) error) {
 }
 
 // Generate runs the extractors that serve property id ("" = all) and rewrites their files.
+// Every extractor writes into its own buffers first: when one fails, the files it touches are left
+// as they are on disk (stale but well-formed) instead of being written half-filled, so that one
+// property's missing table cannot break the Lean build of the others.
 func Generate(repo, dir, id string) error {
 	o := &Out{dir: dir, files: map[string]*strings.Builder{}}
-	failed := false
+	tainted := map[string]bool{}
+	var firstErr error
 	for _, e := range extractors {
 		if id != "" && !strings.Contains(" "+e.ids+" ", " "+id+" ") {
 			continue
 		}
-		if err := e.fn(repo, o); err != nil {
-			if id != "" {
-				return err
-			}
-			// generating for everybody: one property's missing table must not
-			// keep the others' files from being written
+		tmp := &Out{dir: dir, files: map[string]*strings.Builder{}, bare: true}
+		err := e.fn(repo, tmp)
+		if err != nil {
 			fmt.Fprintln(os.Stderr, "facts:", err)
-			failed = true
+			if firstErr == nil {
+				firstErr = err
+			}
+			for n := range tmp.files {
+				tainted[n] = true
+			}
+			continue
 		}
+		for n, b := range tmp.files {
+			o.File(n).WriteString(b.String())
+		}
+	}
+	for n := range tainted {
+		delete(o.files, n)
 	}
 	if err := o.Flush(); err != nil {
 		return err
 	}
-	if failed {
-		return fmt.Errorf("some extractors failed")
-	}
-	return nil
+	return firstErr
 }
